@@ -300,6 +300,12 @@ def cross_language(bs: List[Fields], d: str) -> Tuple[List[Dict[str, Any]], Dict
     for k, nm in enumerate(("hash_config", "geohash_fix", "geofix", "config", "HASH_UPPER", "MT_THING", "THING", "MDF_OTHER", "OTHER", "mt_lower", "lower",
                             "mid_point", "point", "defines_x", "x_hash_")):
         msgs[nm] = {"id": 3700 + k, "fields": {"a": "int32"} if k % 2 else None}
+    # messages that embed other messages (directly, as an array, through a chain): the hash is that of the embedding definition's
+    # own text in every output
+    if len(bs) > 6:
+        msgs["EMBED1"] = {"id": 3900, "fields": {"inner": "BASE1", "n": "int32"}}
+        msgs["EMBED2"] = {"id": 3901, "fields": {"e": "EMBED1", "arr": "BASE6[2]", "h": "HS"}}
+        msgs["EMBED3"] = {"id": 3902, "fields": {"deep": "EMBED2"}}
     prog = defx.Program({"root.yaml": {"constants": CONSTS, "struct_defs": STRUCTS, "message_defs": msgs}})
     try:
         paths = defx.compile_program(prog, d, name="hashes")
